@@ -89,8 +89,10 @@ class LevelAnalysis:
         helpers = set(self.ctx.cg.reach(sorted(known)))
         extra = []
         for d, b in sorted(self.db.bodies.items()):
-            if b.kind == "Closure" or d in known or d in helpers or b.argc < 1:
+            if b.kind == "Closure" or d in known or b.argc < 1:
                 continue
+            if d in helpers and getattr(b, "vis", None) != "pub":
+                continue    # a private helper: only reachable with the arguments its callers pass, analysed inline
             ty = b.locals[1]["ty"].replace("&mut ", "").lstrip("&").strip()
             ty = re.sub(r"^'[a-z_]+ ", "", ty)
             if not (ty == self.level_adt["def"] or ty.endswith("::PriceLevel") or ty == "PriceLevel" or ty == "Self" and "PriceLevel" in (b.impl_self or "")):
